@@ -1,4 +1,5 @@
 """Shared driver for C01 (sequential read) and C02 (index / random access) of the RP66V1 physical layer."""
+import io
 import json
 
 from .. import repo
@@ -110,6 +111,7 @@ def run(ctx, which):
     sul_rng = ctx.subrng('sul')
     traces, recs_l, vm_l, sul_l, meta = [], [], [], [], []
     seqnos = [1, 9, 10, 100, 101, 1000, 1010, 9999]
+    prev_data = None
     for ci, (name, recs, vm, lay) in enumerate(cases):
         seq = sul_rng.choice(seqnos)
         padding = sul_rng.choice(['zero', 'blank'])
@@ -131,14 +133,46 @@ def run(ctx, which):
                     # records and inspect them after the iteration has finished (retained objects must stay true)
                     retained = (ci % 2 == 1)
                     flds = list(fr.iter_logical_records()) if retained else fr.iter_logical_records()
+                    # now and then ANOTHER reader is at work on another file (the previous case's) while this one reads: two files
+                    # compared record by record.  Each reader yields what it yields alone.
+                    comp = comp_solo = comp_got = None
+                    if not retained and ci % 4 == 2 and prev_data is not None:
+                        try:
+                            with File.FileRead(io.BytesIO(prev_data)) as solo_:
+                                comp_solo = [(x.lr_type, bytes(x.logical_data.bytes)) for x in solo_.iter_logical_records()]
+                            comp_fr = File.FileRead(io.BytesIO(prev_data))
+                            comp_fr.__enter__()
+                            comp, comp_got = comp_fr.iter_logical_records(), []
+                        except Exception:
+                            comp = None
                     i = 0
                     for fld in flds:
+                        if comp is not None:
+                            try:
+                                for _ in range(1 + i % 2):
+                                    x = next(comp, None)
+                                    if x is not None:
+                                        comp_got.append((x.lr_type, bytes(x.logical_data.bytes)))
+                            except Exception as e_:
+                                comp_got.append(('raised', '%s: %s' % (type(e_).__name__, e_)))
+                                comp = None
                         i += 1
                         k = min(i, len(recs))
                         data = bytes(fld.logical_data.bytes)
                         tr.append(dict(op='yield', kind='E' if fld.lr_is_eflr else 'I', type=fld.lr_type,
                                        ranges=G.project(k, data, recs[k - 1]['len'])))
                     tr.append(dict(op='eof'))
+                    if comp_got is not None:
+                        try:
+                            if comp is not None:
+                                comp_got += [(x.lr_type, bytes(x.logical_data.bytes)) for x in comp]
+                        except Exception as e_:
+                            comp_got.append(('raised', '%s: %s' % (type(e_).__name__, e_)))
+                        if comp_got != comp_solo:
+                            first_ = next((n_ for n_, (a_, b_) in enumerate(zip(comp_got, comp_solo)) if a_ != b_), min(len(comp_got), len(comp_solo)))
+                            ctx.fail('C01: a second reader advanced alternately with this one yields %d records, alone %d; first difference at record %d: %r' % (
+                                len(comp_got), len(comp_solo), first_ + 1, (comp_got[first_][0], comp_got[first_][1][:40]) if first_ < len(comp_got) else None),
+                                dict(case=ci), sig=dict(op='two-readers'))
                     # a sequential read is a sequential read whatever the reader did before: read again on the SAME reader, after a
                     # complete pass, after a pass abandoned part way, or after a walk over the visible records
                     if ci % 3 == 0:
@@ -207,6 +241,7 @@ def run(ctx, which):
                                        rlo=-1, rhi=-1, nreads=0, kind='E' if fld.lr_is_eflr else 'I', type=fld.lr_type, retained=True))
         except Exception as e:   # the reader raised on a conformant file
             tr.append(dict(op='exception', err='%s: %s' % (type(e).__name__, str(e)[:200])))
+        prev_data = rd.data
         traces.append(tr)
         recs_l.append(recs)
         vm_l.append(vm)
